@@ -274,8 +274,14 @@ def is_bookkeeping_addition(path, a):
 def compare(nf0, nf2):
     """field-by-field differences that count: list of (class key, path, original, re-read)"""
     out = []
+    skip = set()
+    for name, ev in nf0["env_vars"].items():
+        # one precise class: an environment variable with a name > 32 characters comes back under its 32-character prefix
+        if len(name) > 32 and name not in nf2["env_vars"] and nf2["env_vars"].get(name[:32]) == ev and name[:32] not in nf0["env_vars"]:
+            out.append(("envvar-long-name-lost", "/env_vars/" + name, name, name[:32]))
+            skip |= {"/env_vars/" + name, "/env_vars/" + name[:32]}
     for path, a, b in matgen.diff(nf0, nf2):
-        if is_bookkeeping_addition(path, a):
+        if is_bookkeeping_addition(path, a) or path in skip:
             continue
         out.append(("roundtrip:" + _wild(path), path, a, b))
     return out
@@ -583,9 +589,13 @@ def search_one(chk, F, db, enc, tag, strict_fixed_point=True):
         e = dopt.get("dbcExportEncoding", "iso-8859-1")
         d = [x for x in difflib.unified_diff(b1.decode(e, "replace").splitlines(), b2.decode(e, "replace").splitlines(), lineterm="", n=0)
              if not x.startswith(("---", "+++", "@@"))]
-        kinds = sorted({(x[0] + " " + " ".join(x[1:].split()[:2]))[:40] for x in d})
-        cls = sorted({_fp_class(x) for x in d})
-        viol(chk, "not-fixed-point:" + ",".join(cls)[:80], "dump(load(dump(m))) differs from dump(m)", base, "byte-identical", d[:12] + kinds[:0])
+        by_cls = {}
+        for x in d:
+            by_cls.setdefault(_fp_class(x), []).append(x)
+        for cls, lines_ in sorted(by_cls.items()):
+            key = "envvar-long-name-lost" if cls == "BA_:SystemEnvVarLongSymbol" and all(x.startswith("-") for x in lines_) \
+                else "not-fixed-point:" + cls
+            viol(chk, key, "dump(load(dump(m))) differs from dump(m) in %s lines" % cls, base, "byte-identical", lines_[:8])
     return b1, db2
 
 
